@@ -3,5 +3,5 @@ CONSTANTS
   Depth = 3
   Slices = FALSE
 SPECIFICATION Spec
-INVARIANTS AnswerIsDeclarative IndexIsConsistent LinesRejoin RepLemma EmitCase
+INVARIANTS AnswerIsDeclarative IndexIsConsistent LinesRejoin EmitCase
 CHECK_DEADLOCK FALSE
